@@ -23,9 +23,10 @@ if [ -n "${dest:-}" ]; then
   mkdir -p "$(dirname "$target")"; cp "$D/$demo" "$target"
   dpkg="./$(dirname "$target")"
   echo "SEED demo with patch:"; go test -vet=off -count=1 -run 'Demo|Seed|Regress|Verif' "$dpkg" 2>&1 | tail -4
-  git stash -q -- $(git diff --name-only) 2>/dev/null
+  # (no git stash: the stash is shared by all worktrees of /repo)
+  git apply -R "$D/patch.diff"
   echo "SEED demo without patch:"; go test -vet=off -count=1 -run 'Demo|Seed|Regress|Verif' "$dpkg" 2>&1 | tail -4
-  git stash pop -q
+  git apply "$D/patch.diff"
   rm -f "$target"
 fi
 cd /verif
